@@ -12,6 +12,8 @@ import (
 	"strings"
 	"sync"
 	"time"
+
+	"github.com/TarsCloud/TarsGo/tars/util/vhook"
 )
 
 // DEBUG loglevel
@@ -447,6 +449,7 @@ func flushLog() {
 		case v := <-logQueue:
 			v.writer.Write(v.value)
 		default:
+			vhook.At("rogger.flush.between")
 			select {
 			case v := <-logQueue:
 				v.writer.Write(v.value)
